@@ -3,6 +3,7 @@
 package network
 
 import (
+	mrand "math/rand/v2"
 	"time"
 
 	"go.uber.org/zap"
@@ -22,4 +23,15 @@ func VerifNewServer(config ServerConfig, chain Ledger, stSync StateSync, log *za
 // Dial and Accept start as a goroutine right after NewTCPPeer).
 func (p *TCPPeer) VerifHandleConn() {
 	p.handleConn()
+}
+
+// VerifIntN, when set, replaces the random choice of the block request window
+// (getRequestBlocksPayload) by the harness's own deterministic one.
+var VerifIntN func(n int) int
+
+func randIntN(n int) int {
+	if VerifIntN != nil {
+		return VerifIntN(n)
+	}
+	return mrand.IntN(n)
 }
